@@ -591,8 +591,15 @@ package valid
 // ---------------------------------------------------------------------------
 // VStruct: constructor, walker, nested validation
 
+// splitQ / splitQN name the pieces ValidNamesSplit returns (quote-aware split of s at byte sep). They are uninterpreted:
+// the clause below only says the result is a function of the arguments (the function writes nothing and reads no mutable
+// state); what the pieces are is decided by the bounded stand-in of C14.
+//@ spec splitQN(s String, sep Int) Int
+//@ spec splitQ(s String, sep Int, j Int) String
+
 //@ func ValidNamesSplit
 //@   modifies nothing
+//@   defines [C05 split.names] len(result) == splitQN(s, ite(len(sep) > 0, sep[0], 44)) && forall(j Int :: {result[j]} 0 <= j && j < len(result) ==> result[j] == splitQ(s, ite(len(sep) > 0, sep[0], 44), j))
 //@   ensures [C14 C12 split.fresh] fresh(sliceptr(result)) || result == nil
 //@   ensures [C14 split.empty] s == "" ==> result == nil
 //@   loop#0 invariant fresh(sliceptr(res)) && fresh(sliceptr(tmp)) && stack != nil && fresh(stack) && (sliceptr(stack.data) == 0 || fresh(sliceptr(stack.data)))
@@ -918,9 +925,17 @@ package valid
 // ---------------------------------------------------------------------------
 // in / include / re / ints / unique / datetime: safety and at-most-one clause (C13, C02); verdicts see C05 section
 
+// strApply(f, a, b): what the string predicate f answers on (a, b). The two predicates the library passes are In$1 and
+// Include$1; their bodies are verified against in.pred / include.pred, and the two axioms restate exactly those proved
+// contracts at the level of the function value.
+//@ spec strApply(f Int, a String, b String) Bool
+//@ axiom [in.pred.lift] forall(a String, b String :: {strApply(funcval("valid.In$1"), a, b)} strApply(funcval("valid.In$1"), a, b) == (a == b))
+//@ axiom [include.pred.lift] forall(a String, b String :: {strApply(funcval("valid.Include$1"), a, b)} strApply(funcval("valid.Include$1"), a, b) == contains(a, b))
+
 //@ functype strPred(a, b)
 //@   signature func(string, string) bool
 //@   modifies nothing
+//@   ensures result == strApply(callee, a, b)
 
 //@ func In$1
 //@   modifies nothing
@@ -930,16 +945,35 @@ package valid
 //@   ensures [C05 include.pred] result == contains(tvVal, v)
 
 //@ func in
+//@   let kv = ParseValidNameKV.value(validName)
+//@   let li = indexof(kv, "(")
+//@   let ri = lastIndexOf(kv, ")")
+//@   ensures [C05 in.verdict] li != -1 && ri >= li && rv.kind(tv) == 24 && sb.nw(errBuf) > old(sb.nw(errBuf)) ==>
+//@       forall(j Int :: {splitQ(kv[li+1:ri], 47, j)} 0 <= j && j < splitQN(kv[li+1:ri], 47) ==> !strApply(fn, rv.str(tv), trimSet(splitQ(kv[li+1:ri], 47, j), "'")))
+//@   ensures [C05 in.complete.thorough] li != -1 && ri >= li && rv.kind(tv) == 24 && sb.nw(errBuf) == old(sb.nw(errBuf)) ==>
+//@       exists(j Int :: 0 <= j && j < splitQN(kv[li+1:ri], 47) && strApply(fn, rv.str(tv), trimSet(splitQ(kv[li+1:ri], 47, j), "'")))
+//@   ensures sb.nw(errBuf) >= old(sb.nw(errBuf))
+//@   loop#0 invariant sb.nw(errBuf) == old(sb.nw(errBuf)) && forall(j Int :: {splitQ(inVals, 47, j)} 0 <= j && j <= rangeindex ==> !strApply(fn, tvVal, trimSet(splitQ(inVals, 47, j), "'")))
 //@   at call GetJoinValidErrStr#* assert [C15 in.msg] ParseValidNameKV.cusMsg(validName) != "" ==> len(others) == 1 && others[0] == ParseValidNameKV.cusMsg(validName)
 //@   requires errBuf != nil && rv.valid(tv) && !rv.ro(tv) && fn != nil
 //@   modifies sb.content(errBuf), sb.nw(errBuf)
 //@   ensures [C02 in.once] sb.nw(errBuf) <= old(sb.nw(errBuf)) + 1 && prefixof(old(sb.content(errBuf)), sb.content(errBuf))
 
 //@ func In
+//@   let kv = ParseValidNameKV.value(validName)
+//@   let li = indexof(kv, "(")
+//@   let ri = lastIndexOf(kv, ")")
+//@   ensures [C05 in.verdict] li != -1 && ri >= li && rv.kind(tv) == 24 ==> ((sb.nw(errBuf) > old(sb.nw(errBuf))) <==>
+//@       forall(j Int :: {splitQ(kv[li+1:ri], 47, j)} 0 <= j && j < splitQN(kv[li+1:ri], 47) ==> rv.str(tv) != trimSet(splitQ(kv[li+1:ri], 47, j), "'")))
 //@   requires errBuf != nil && rv.valid(tv) && !rv.ro(tv)
 //@   modifies sb.content(errBuf), sb.nw(errBuf)
 //@   ensures [C02 in.once] sb.nw(errBuf) <= old(sb.nw(errBuf)) + 1 && prefixof(old(sb.content(errBuf)), sb.content(errBuf))
 //@ func Include
+//@   let kv = ParseValidNameKV.value(validName)
+//@   let li = indexof(kv, "(")
+//@   let ri = lastIndexOf(kv, ")")
+//@   ensures [C05 include.verdict] li != -1 && ri >= li && rv.kind(tv) == 24 ==> ((sb.nw(errBuf) > old(sb.nw(errBuf))) <==>
+//@       forall(j Int :: {splitQ(kv[li+1:ri], 47, j)} 0 <= j && j < splitQN(kv[li+1:ri], 47) ==> !contains(rv.str(tv), trimSet(splitQ(kv[li+1:ri], 47, j), "'"))))
 //@   requires errBuf != nil && rv.valid(tv) && !rv.ro(tv)
 //@   modifies sb.content(errBuf), sb.nw(errBuf)
 //@   ensures [C02 include.once] sb.nw(errBuf) <= old(sb.nw(errBuf)) + 1 && prefixof(old(sb.content(errBuf)), sb.content(errBuf))
